@@ -43,6 +43,15 @@ module Coq__1 = struct
 end
 include Coq__1
 
+(** val sub : nat -> nat -> nat **)
+
+let rec sub n0 m =
+  match n0 with
+  | O -> n0
+  | S k -> (match m with
+            | O -> n0
+            | S l -> sub k l)
+
 type positive =
 | XI of positive
 | XO of positive
@@ -706,6 +715,11 @@ let rec skipn n0 l =
 let w8 x =
   Z.modulo x (Z.pow (Zpos (XO XH)) (Zpos (XO (XO (XO XH)))))
 
+(** val w32 : z -> z **)
+
+let w32 x =
+  Z.modulo x (Z.pow (Zpos (XO XH)) (Zpos (XO (XO (XO (XO (XO XH)))))))
+
 (** val w64 : z -> z **)
 
 let w64 x =
@@ -759,6 +773,13 @@ let or64 =
 let xor64 =
   Z.coq_lxor
 
+(** val not64 : z -> z **)
+
+let not64 a =
+  Z.sub
+    (Z.sub (Z.pow (Zpos (XO XH)) (Zpos (XO (XO (XO (XO (XO (XO XH))))))))
+      (Zpos XH)) a
+
 (** val shl64 : z -> z -> z **)
 
 let shl64 a n0 =
@@ -773,10 +794,59 @@ let shr64 a n0 =
   then Z.shiftr a n0
   else Z0
 
+(** val add32 : z -> z -> z **)
+
+let add32 a b =
+  w32 (Z.add a b)
+
+(** val sub32 : z -> z -> z **)
+
+let sub32 a b =
+  w32 (Z.sub a b)
+
+(** val mul32 : z -> z -> z **)
+
+let mul32 a b =
+  w32 (Z.mul a b)
+
+(** val and32 : z -> z -> z **)
+
+let and32 =
+  Z.coq_land
+
+(** val or32 : z -> z -> z **)
+
+let or32 =
+  Z.coq_lor
+
+(** val not32 : z -> z **)
+
+let not32 a =
+  Z.sub
+    (Z.sub (Z.pow (Zpos (XO XH)) (Zpos (XO (XO (XO (XO (XO XH))))))) (Zpos
+      XH)) a
+
+(** val shl32 : z -> z -> z **)
+
+let shl32 a n0 =
+  if Z.ltb n0 (Zpos (XO (XO (XO (XO (XO XH))))))
+  then w32 (Z.shiftl a n0)
+  else Z0
+
 (** val sub8 : z -> z -> z **)
 
 let sub8 a b =
   w8 (Z.sub a b)
+
+(** val or8 : z -> z -> z **)
+
+let or8 =
+  Z.coq_lor
+
+(** val xor8 : z -> z -> z **)
+
+let xor8 =
+  Z.coq_lxor
 
 (** val addi64 : z -> z -> z **)
 
@@ -815,6 +885,11 @@ let at_ b i =
 let slice_from b i =
   skipn (Z.to_nat i) b
 
+(** val slice_to : 'a1 list -> z -> 'a1 list **)
+
+let slice_to b j =
+  firstn (Z.to_nat j) b
+
 (** val slice : 'a1 list -> z -> z -> 'a1 list **)
 
 let slice b i j =
@@ -837,6 +912,16 @@ let rec le_load n0 b =
 
 let le64 b =
   le_load (S (S (S (S (S (S (S (S O)))))))) b
+
+(** val le32 : bytes -> z **)
+
+let le32 b =
+  le_load (S (S (S (S O)))) b
+
+(** val le16 : bytes -> z **)
+
+let le16 b =
+  le_load (S (S O)) b
 
 (** val isnil : 'a1 option -> bool **)
 
@@ -3053,3 +3138,808 @@ let iso_spec flags s =
              (Nat.leb (S (S (S (S (S (S (S (S O)))))))) (length r)))
            (time_ok (firstn (S (S (S (S (S (S (S (S O)))))))) r)))
          (frac_zone_ok flags (skipn (S (S (S (S (S (S (S (S O)))))))) r)))
+
+(** val asm_hasLessConstL64 : z **)
+
+let asm_hasLessConstL64 =
+  Zpos (XI (XO (XO (XO (XO (XO (XO (XO (XI (XO (XO (XO (XO (XO (XO (XO (XI
+    (XO (XO (XO (XO (XO (XO (XO (XI (XO (XO (XO (XO (XO (XO (XO (XI (XO (XO
+    (XO (XO (XO (XO (XO (XI (XO (XO (XO (XO (XO (XO (XO (XI (XO (XO (XO (XO
+    (XO (XO (XO XH))))))))))))))))))))))))))))))))))))))))))))))))))))))))
+
+(** val asm_hasLessConstR64 : z **)
+
+let asm_hasLessConstR64 =
+  Zpos (XO (XO (XO (XO (XO (XO (XO (XI (XO (XO (XO (XO (XO (XO (XO (XI (XO
+    (XO (XO (XO (XO (XO (XO (XI (XO (XO (XO (XO (XO (XO (XO (XI (XO (XO (XO
+    (XO (XO (XO (XO (XI (XO (XO (XO (XO (XO (XO (XO (XI (XO (XO (XO (XO (XO
+    (XO (XO (XI (XO (XO (XO (XO (XO (XO (XO
+    XH)))))))))))))))))))))))))))))))))))))))))))))))))))))))))))))))
+
+(** val asm_hasLessConstL32 : z **)
+
+let asm_hasLessConstL32 =
+  Zpos (XI (XO (XO (XO (XO (XO (XO (XO (XI (XO (XO (XO (XO (XO (XO (XO (XI
+    (XO (XO (XO (XO (XO (XO (XO XH))))))))))))))))))))))))
+
+(** val asm_hasLessConstR32 : z **)
+
+let asm_hasLessConstR32 =
+  Zpos (XO (XO (XO (XO (XO (XO (XO (XI (XO (XO (XO (XO (XO (XO (XO (XI (XO
+    (XO (XO (XO (XO (XO (XO (XI (XO (XO (XO (XO (XO (XO (XO
+    XH)))))))))))))))))))))))))))))))
+
+(** val asm_hasMoreConstL64 : z **)
+
+let asm_hasMoreConstL64 =
+  Zpos (XI (XO (XO (XO (XO (XO (XO (XO (XI (XO (XO (XO (XO (XO (XO (XO (XI
+    (XO (XO (XO (XO (XO (XO (XO (XI (XO (XO (XO (XO (XO (XO (XO (XI (XO (XO
+    (XO (XO (XO (XO (XO (XI (XO (XO (XO (XO (XO (XO (XO (XI (XO (XO (XO (XO
+    (XO (XO (XO XH))))))))))))))))))))))))))))))))))))))))))))))))))))))))
+
+(** val asm_hasMoreConstR64 : z **)
+
+let asm_hasMoreConstR64 =
+  Zpos (XO (XO (XO (XO (XO (XO (XO (XI (XO (XO (XO (XO (XO (XO (XO (XI (XO
+    (XO (XO (XO (XO (XO (XO (XI (XO (XO (XO (XO (XO (XO (XO (XI (XO (XO (XO
+    (XO (XO (XO (XO (XI (XO (XO (XO (XO (XO (XO (XO (XI (XO (XO (XO (XO (XO
+    (XO (XO (XI (XO (XO (XO (XO (XO (XO (XO
+    XH)))))))))))))))))))))))))))))))))))))))))))))))))))))))))))))))
+
+(** val asm_hasMoreConstL32 : z **)
+
+let asm_hasMoreConstL32 =
+  Zpos (XI (XO (XO (XO (XO (XO (XO (XO (XI (XO (XO (XO (XO (XO (XO (XO (XI
+    (XO (XO (XO (XO (XO (XO (XO XH))))))))))))))))))))))))
+
+(** val asm_hasMoreConstR32 : z **)
+
+let asm_hasMoreConstR32 =
+  Zpos (XO (XO (XO (XO (XO (XO (XO (XI (XO (XO (XO (XO (XO (XO (XO (XI (XO
+    (XO (XO (XO (XO (XO (XO (XI (XO (XO (XO (XO (XO (XO (XO
+    XH)))))))))))))))))))))))))))))))
+
+(** val asm_lowerCase : z list **)
+
+let asm_lowerCase =
+  Z0 :: ((Zpos XH) :: ((Zpos (XO XH)) :: ((Zpos (XI XH)) :: ((Zpos (XO (XO
+    XH))) :: ((Zpos (XI (XO XH))) :: ((Zpos (XO (XI XH))) :: ((Zpos (XI (XI
+    XH))) :: ((Zpos (XO (XO (XO XH)))) :: ((Zpos (XI (XO (XO XH)))) :: ((Zpos
+    (XO (XI (XO XH)))) :: ((Zpos (XI (XI (XO XH)))) :: ((Zpos (XO (XO (XI
+    XH)))) :: ((Zpos (XI (XO (XI XH)))) :: ((Zpos (XO (XI (XI
+    XH)))) :: ((Zpos (XI (XI (XI XH)))) :: ((Zpos (XO (XO (XO (XO
+    XH))))) :: ((Zpos (XI (XO (XO (XO XH))))) :: ((Zpos (XO (XI (XO (XO
+    XH))))) :: ((Zpos (XI (XI (XO (XO XH))))) :: ((Zpos (XO (XO (XI (XO
+    XH))))) :: ((Zpos (XI (XO (XI (XO XH))))) :: ((Zpos (XO (XI (XI (XO
+    XH))))) :: ((Zpos (XI (XI (XI (XO XH))))) :: ((Zpos (XO (XO (XO (XI
+    XH))))) :: ((Zpos (XI (XO (XO (XI XH))))) :: ((Zpos (XO (XI (XO (XI
+    XH))))) :: ((Zpos (XI (XI (XO (XI XH))))) :: ((Zpos (XO (XO (XI (XI
+    XH))))) :: ((Zpos (XI (XO (XI (XI XH))))) :: ((Zpos (XO (XI (XI (XI
+    XH))))) :: ((Zpos (XI (XI (XI (XI XH))))) :: ((Zpos (XO (XO (XO (XO (XO
+    XH)))))) :: ((Zpos (XI (XO (XO (XO (XO XH)))))) :: ((Zpos (XO (XI (XO (XO
+    (XO XH)))))) :: ((Zpos (XI (XI (XO (XO (XO XH)))))) :: ((Zpos (XO (XO (XI
+    (XO (XO XH)))))) :: ((Zpos (XI (XO (XI (XO (XO XH)))))) :: ((Zpos (XO (XI
+    (XI (XO (XO XH)))))) :: ((Zpos (XI (XI (XI (XO (XO XH)))))) :: ((Zpos (XO
+    (XO (XO (XI (XO XH)))))) :: ((Zpos (XI (XO (XO (XI (XO XH)))))) :: ((Zpos
+    (XO (XI (XO (XI (XO XH)))))) :: ((Zpos (XI (XI (XO (XI (XO
+    XH)))))) :: ((Zpos (XO (XO (XI (XI (XO XH)))))) :: ((Zpos (XI (XO (XI (XI
+    (XO XH)))))) :: ((Zpos (XO (XI (XI (XI (XO XH)))))) :: ((Zpos (XI (XI (XI
+    (XI (XO XH)))))) :: ((Zpos (XO (XO (XO (XO (XI XH)))))) :: ((Zpos (XI (XO
+    (XO (XO (XI XH)))))) :: ((Zpos (XO (XI (XO (XO (XI XH)))))) :: ((Zpos (XI
+    (XI (XO (XO (XI XH)))))) :: ((Zpos (XO (XO (XI (XO (XI XH)))))) :: ((Zpos
+    (XI (XO (XI (XO (XI XH)))))) :: ((Zpos (XO (XI (XI (XO (XI
+    XH)))))) :: ((Zpos (XI (XI (XI (XO (XI XH)))))) :: ((Zpos (XO (XO (XO (XI
+    (XI XH)))))) :: ((Zpos (XI (XO (XO (XI (XI XH)))))) :: ((Zpos (XO (XI (XO
+    (XI (XI XH)))))) :: ((Zpos (XI (XI (XO (XI (XI XH)))))) :: ((Zpos (XO (XO
+    (XI (XI (XI XH)))))) :: ((Zpos (XI (XO (XI (XI (XI XH)))))) :: ((Zpos (XO
+    (XI (XI (XI (XI XH)))))) :: ((Zpos (XI (XI (XI (XI (XI XH)))))) :: ((Zpos
+    (XO (XO (XO (XO (XO (XO XH))))))) :: ((Zpos (XI (XO (XO (XO (XO (XI
+    XH))))))) :: ((Zpos (XO (XI (XO (XO (XO (XI XH))))))) :: ((Zpos (XI (XI
+    (XO (XO (XO (XI XH))))))) :: ((Zpos (XO (XO (XI (XO (XO (XI
+    XH))))))) :: ((Zpos (XI (XO (XI (XO (XO (XI XH))))))) :: ((Zpos (XO (XI
+    (XI (XO (XO (XI XH))))))) :: ((Zpos (XI (XI (XI (XO (XO (XI
+    XH))))))) :: ((Zpos (XO (XO (XO (XI (XO (XI XH))))))) :: ((Zpos (XI (XO
+    (XO (XI (XO (XI XH))))))) :: ((Zpos (XO (XI (XO (XI (XO (XI
+    XH))))))) :: ((Zpos (XI (XI (XO (XI (XO (XI XH))))))) :: ((Zpos (XO (XO
+    (XI (XI (XO (XI XH))))))) :: ((Zpos (XI (XO (XI (XI (XO (XI
+    XH))))))) :: ((Zpos (XO (XI (XI (XI (XO (XI XH))))))) :: ((Zpos (XI (XI
+    (XI (XI (XO (XI XH))))))) :: ((Zpos (XO (XO (XO (XO (XI (XI
+    XH))))))) :: ((Zpos (XI (XO (XO (XO (XI (XI XH))))))) :: ((Zpos (XO (XI
+    (XO (XO (XI (XI XH))))))) :: ((Zpos (XI (XI (XO (XO (XI (XI
+    XH))))))) :: ((Zpos (XO (XO (XI (XO (XI (XI XH))))))) :: ((Zpos (XI (XO
+    (XI (XO (XI (XI XH))))))) :: ((Zpos (XO (XI (XI (XO (XI (XI
+    XH))))))) :: ((Zpos (XI (XI (XI (XO (XI (XI XH))))))) :: ((Zpos (XO (XO
+    (XO (XI (XI (XI XH))))))) :: ((Zpos (XI (XO (XO (XI (XI (XI
+    XH))))))) :: ((Zpos (XO (XI (XO (XI (XI (XI XH))))))) :: ((Zpos (XI (XI
+    (XO (XI (XI (XO XH))))))) :: ((Zpos (XO (XO (XI (XI (XI (XO
+    XH))))))) :: ((Zpos (XI (XO (XI (XI (XI (XO XH))))))) :: ((Zpos (XO (XI
+    (XI (XI (XI (XO XH))))))) :: ((Zpos (XI (XI (XI (XI (XI (XO
+    XH))))))) :: ((Zpos (XO (XO (XO (XO (XO (XI XH))))))) :: ((Zpos (XI (XO
+    (XO (XO (XO (XI XH))))))) :: ((Zpos (XO (XI (XO (XO (XO (XI
+    XH))))))) :: ((Zpos (XI (XI (XO (XO (XO (XI XH))))))) :: ((Zpos (XO (XO
+    (XI (XO (XO (XI XH))))))) :: ((Zpos (XI (XO (XI (XO (XO (XI
+    XH))))))) :: ((Zpos (XO (XI (XI (XO (XO (XI XH))))))) :: ((Zpos (XI (XI
+    (XI (XO (XO (XI XH))))))) :: ((Zpos (XO (XO (XO (XI (XO (XI
+    XH))))))) :: ((Zpos (XI (XO (XO (XI (XO (XI XH))))))) :: ((Zpos (XO (XI
+    (XO (XI (XO (XI XH))))))) :: ((Zpos (XI (XI (XO (XI (XO (XI
+    XH))))))) :: ((Zpos (XO (XO (XI (XI (XO (XI XH))))))) :: ((Zpos (XI (XO
+    (XI (XI (XO (XI XH))))))) :: ((Zpos (XO (XI (XI (XI (XO (XI
+    XH))))))) :: ((Zpos (XI (XI (XI (XI (XO (XI XH))))))) :: ((Zpos (XO (XO
+    (XO (XO (XI (XI XH))))))) :: ((Zpos (XI (XO (XO (XO (XI (XI
+    XH))))))) :: ((Zpos (XO (XI (XO (XO (XI (XI XH))))))) :: ((Zpos (XI (XI
+    (XO (XO (XI (XI XH))))))) :: ((Zpos (XO (XO (XI (XO (XI (XI
+    XH))))))) :: ((Zpos (XI (XO (XI (XO (XI (XI XH))))))) :: ((Zpos (XO (XI
+    (XI (XO (XI (XI XH))))))) :: ((Zpos (XI (XI (XI (XO (XI (XI
+    XH))))))) :: ((Zpos (XO (XO (XO (XI (XI (XI XH))))))) :: ((Zpos (XI (XO
+    (XO (XI (XI (XI XH))))))) :: ((Zpos (XO (XI (XO (XI (XI (XI
+    XH))))))) :: ((Zpos (XI (XI (XO (XI (XI (XI XH))))))) :: ((Zpos (XO (XO
+    (XI (XI (XI (XI XH))))))) :: ((Zpos (XI (XO (XI (XI (XI (XI
+    XH))))))) :: ((Zpos (XO (XI (XI (XI (XI (XI XH))))))) :: ((Zpos (XI (XI
+    (XI (XI (XI (XI XH))))))) :: ((Zpos (XO (XO (XO (XO (XO (XO (XO
+    XH)))))))) :: ((Zpos (XI (XO (XO (XO (XO (XO (XO XH)))))))) :: ((Zpos (XO
+    (XI (XO (XO (XO (XO (XO XH)))))))) :: ((Zpos (XI (XI (XO (XO (XO (XO (XO
+    XH)))))))) :: ((Zpos (XO (XO (XI (XO (XO (XO (XO XH)))))))) :: ((Zpos (XI
+    (XO (XI (XO (XO (XO (XO XH)))))))) :: ((Zpos (XO (XI (XI (XO (XO (XO (XO
+    XH)))))))) :: ((Zpos (XI (XI (XI (XO (XO (XO (XO XH)))))))) :: ((Zpos (XO
+    (XO (XO (XI (XO (XO (XO XH)))))))) :: ((Zpos (XI (XO (XO (XI (XO (XO (XO
+    XH)))))))) :: ((Zpos (XO (XI (XO (XI (XO (XO (XO XH)))))))) :: ((Zpos (XI
+    (XI (XO (XI (XO (XO (XO XH)))))))) :: ((Zpos (XO (XO (XI (XI (XO (XO (XO
+    XH)))))))) :: ((Zpos (XI (XO (XI (XI (XO (XO (XO XH)))))))) :: ((Zpos (XO
+    (XI (XI (XI (XO (XO (XO XH)))))))) :: ((Zpos (XI (XI (XI (XI (XO (XO (XO
+    XH)))))))) :: ((Zpos (XO (XO (XO (XO (XI (XO (XO XH)))))))) :: ((Zpos (XI
+    (XO (XO (XO (XI (XO (XO XH)))))))) :: ((Zpos (XO (XI (XO (XO (XI (XO (XO
+    XH)))))))) :: ((Zpos (XI (XI (XO (XO (XI (XO (XO XH)))))))) :: ((Zpos (XO
+    (XO (XI (XO (XI (XO (XO XH)))))))) :: ((Zpos (XI (XO (XI (XO (XI (XO (XO
+    XH)))))))) :: ((Zpos (XO (XI (XI (XO (XI (XO (XO XH)))))))) :: ((Zpos (XI
+    (XI (XI (XO (XI (XO (XO XH)))))))) :: ((Zpos (XO (XO (XO (XI (XI (XO (XO
+    XH)))))))) :: ((Zpos (XI (XO (XO (XI (XI (XO (XO XH)))))))) :: ((Zpos (XO
+    (XI (XO (XI (XI (XO (XO XH)))))))) :: ((Zpos (XI (XI (XO (XI (XI (XO (XO
+    XH)))))))) :: ((Zpos (XO (XO (XI (XI (XI (XO (XO XH)))))))) :: ((Zpos (XI
+    (XO (XI (XI (XI (XO (XO XH)))))))) :: ((Zpos (XO (XI (XI (XI (XI (XO (XO
+    XH)))))))) :: ((Zpos (XI (XI (XI (XI (XI (XO (XO XH)))))))) :: ((Zpos (XO
+    (XO (XO (XO (XO (XI (XO XH)))))))) :: ((Zpos (XI (XO (XO (XO (XO (XI (XO
+    XH)))))))) :: ((Zpos (XO (XI (XO (XO (XO (XI (XO XH)))))))) :: ((Zpos (XI
+    (XI (XO (XO (XO (XI (XO XH)))))))) :: ((Zpos (XO (XO (XI (XO (XO (XI (XO
+    XH)))))))) :: ((Zpos (XI (XO (XI (XO (XO (XI (XO XH)))))))) :: ((Zpos (XO
+    (XI (XI (XO (XO (XI (XO XH)))))))) :: ((Zpos (XI (XI (XI (XO (XO (XI (XO
+    XH)))))))) :: ((Zpos (XO (XO (XO (XI (XO (XI (XO XH)))))))) :: ((Zpos (XI
+    (XO (XO (XI (XO (XI (XO XH)))))))) :: ((Zpos (XO (XI (XO (XI (XO (XI (XO
+    XH)))))))) :: ((Zpos (XI (XI (XO (XI (XO (XI (XO XH)))))))) :: ((Zpos (XO
+    (XO (XI (XI (XO (XI (XO XH)))))))) :: ((Zpos (XI (XO (XI (XI (XO (XI (XO
+    XH)))))))) :: ((Zpos (XO (XI (XI (XI (XO (XI (XO XH)))))))) :: ((Zpos (XI
+    (XI (XI (XI (XO (XI (XO XH)))))))) :: ((Zpos (XO (XO (XO (XO (XI (XI (XO
+    XH)))))))) :: ((Zpos (XI (XO (XO (XO (XI (XI (XO XH)))))))) :: ((Zpos (XO
+    (XI (XO (XO (XI (XI (XO XH)))))))) :: ((Zpos (XI (XI (XO (XO (XI (XI (XO
+    XH)))))))) :: ((Zpos (XO (XO (XI (XO (XI (XI (XO XH)))))))) :: ((Zpos (XI
+    (XO (XI (XO (XI (XI (XO XH)))))))) :: ((Zpos (XO (XI (XI (XO (XI (XI (XO
+    XH)))))))) :: ((Zpos (XI (XI (XI (XO (XI (XI (XO XH)))))))) :: ((Zpos (XO
+    (XO (XO (XI (XI (XI (XO XH)))))))) :: ((Zpos (XI (XO (XO (XI (XI (XI (XO
+    XH)))))))) :: ((Zpos (XO (XI (XO (XI (XI (XI (XO XH)))))))) :: ((Zpos (XI
+    (XI (XO (XI (XI (XI (XO XH)))))))) :: ((Zpos (XO (XO (XI (XI (XI (XI (XO
+    XH)))))))) :: ((Zpos (XI (XO (XI (XI (XI (XI (XO XH)))))))) :: ((Zpos (XO
+    (XI (XI (XI (XI (XI (XO XH)))))))) :: ((Zpos (XI (XI (XI (XI (XI (XI (XO
+    XH)))))))) :: ((Zpos (XO (XO (XO (XO (XO (XO (XI XH)))))))) :: ((Zpos (XI
+    (XO (XO (XO (XO (XO (XI XH)))))))) :: ((Zpos (XO (XI (XO (XO (XO (XO (XI
+    XH)))))))) :: ((Zpos (XI (XI (XO (XO (XO (XO (XI XH)))))))) :: ((Zpos (XO
+    (XO (XI (XO (XO (XO (XI XH)))))))) :: ((Zpos (XI (XO (XI (XO (XO (XO (XI
+    XH)))))))) :: ((Zpos (XO (XI (XI (XO (XO (XO (XI XH)))))))) :: ((Zpos (XI
+    (XI (XI (XO (XO (XO (XI XH)))))))) :: ((Zpos (XO (XO (XO (XI (XO (XO (XI
+    XH)))))))) :: ((Zpos (XI (XO (XO (XI (XO (XO (XI XH)))))))) :: ((Zpos (XO
+    (XI (XO (XI (XO (XO (XI XH)))))))) :: ((Zpos (XI (XI (XO (XI (XO (XO (XI
+    XH)))))))) :: ((Zpos (XO (XO (XI (XI (XO (XO (XI XH)))))))) :: ((Zpos (XI
+    (XO (XI (XI (XO (XO (XI XH)))))))) :: ((Zpos (XO (XI (XI (XI (XO (XO (XI
+    XH)))))))) :: ((Zpos (XI (XI (XI (XI (XO (XO (XI XH)))))))) :: ((Zpos (XO
+    (XO (XO (XO (XI (XO (XI XH)))))))) :: ((Zpos (XI (XO (XO (XO (XI (XO (XI
+    XH)))))))) :: ((Zpos (XO (XI (XO (XO (XI (XO (XI XH)))))))) :: ((Zpos (XI
+    (XI (XO (XO (XI (XO (XI XH)))))))) :: ((Zpos (XO (XO (XI (XO (XI (XO (XI
+    XH)))))))) :: ((Zpos (XI (XO (XI (XO (XI (XO (XI XH)))))))) :: ((Zpos (XO
+    (XI (XI (XO (XI (XO (XI XH)))))))) :: ((Zpos (XI (XI (XI (XO (XI (XO (XI
+    XH)))))))) :: ((Zpos (XO (XO (XO (XI (XI (XO (XI XH)))))))) :: ((Zpos (XI
+    (XO (XO (XI (XI (XO (XI XH)))))))) :: ((Zpos (XO (XI (XO (XI (XI (XO (XI
+    XH)))))))) :: ((Zpos (XI (XI (XO (XI (XI (XO (XI XH)))))))) :: ((Zpos (XO
+    (XO (XI (XI (XI (XO (XI XH)))))))) :: ((Zpos (XI (XO (XI (XI (XI (XO (XI
+    XH)))))))) :: ((Zpos (XO (XI (XI (XI (XI (XO (XI XH)))))))) :: ((Zpos (XI
+    (XI (XI (XI (XI (XO (XI XH)))))))) :: ((Zpos (XO (XO (XO (XO (XO (XI (XI
+    XH)))))))) :: ((Zpos (XI (XO (XO (XO (XO (XI (XI XH)))))))) :: ((Zpos (XO
+    (XI (XO (XO (XO (XI (XI XH)))))))) :: ((Zpos (XI (XI (XO (XO (XO (XI (XI
+    XH)))))))) :: ((Zpos (XO (XO (XI (XO (XO (XI (XI XH)))))))) :: ((Zpos (XI
+    (XO (XI (XO (XO (XI (XI XH)))))))) :: ((Zpos (XO (XI (XI (XO (XO (XI (XI
+    XH)))))))) :: ((Zpos (XI (XI (XI (XO (XO (XI (XI XH)))))))) :: ((Zpos (XO
+    (XO (XO (XI (XO (XI (XI XH)))))))) :: ((Zpos (XI (XO (XO (XI (XO (XI (XI
+    XH)))))))) :: ((Zpos (XO (XI (XO (XI (XO (XI (XI XH)))))))) :: ((Zpos (XI
+    (XI (XO (XI (XO (XI (XI XH)))))))) :: ((Zpos (XO (XO (XI (XI (XO (XI (XI
+    XH)))))))) :: ((Zpos (XI (XO (XI (XI (XO (XI (XI XH)))))))) :: ((Zpos (XO
+    (XI (XI (XI (XO (XI (XI XH)))))))) :: ((Zpos (XI (XI (XI (XI (XO (XI (XI
+    XH)))))))) :: ((Zpos (XO (XO (XO (XO (XI (XI (XI XH)))))))) :: ((Zpos (XI
+    (XO (XO (XO (XI (XI (XI XH)))))))) :: ((Zpos (XO (XI (XO (XO (XI (XI (XI
+    XH)))))))) :: ((Zpos (XI (XI (XO (XO (XI (XI (XI XH)))))))) :: ((Zpos (XO
+    (XO (XI (XO (XI (XI (XI XH)))))))) :: ((Zpos (XI (XO (XI (XO (XI (XI (XI
+    XH)))))))) :: ((Zpos (XO (XI (XI (XO (XI (XI (XI XH)))))))) :: ((Zpos (XI
+    (XI (XI (XO (XI (XI (XI XH)))))))) :: ((Zpos (XO (XO (XO (XI (XI (XI (XI
+    XH)))))))) :: ((Zpos (XI (XO (XO (XI (XI (XI (XI XH)))))))) :: ((Zpos (XO
+    (XI (XO (XI (XI (XI (XI XH)))))))) :: ((Zpos (XI (XI (XO (XI (XI (XI (XI
+    XH)))))))) :: ((Zpos (XO (XO (XI (XI (XI (XI (XI XH)))))))) :: ((Zpos (XI
+    (XO (XI (XI (XI (XI (XI XH)))))))) :: ((Zpos (XO (XI (XI (XI (XI (XI (XI
+    XH)))))))) :: ((Zpos (XI (XI (XI (XI (XI (XI (XI
+    XH)))))))) :: [])))))))))))))))))))))))))))))))))))))))))))))))))))))))))))))))))))))))))))))))))))))))))))))))))))))))))))))))))))))))))))))))))))))))))))))))))))))))))))))))))))))))))))))))))))))))))))))))))))))))))))))))))))))))))))))))))))))))))))))))))))))))))))))))
+
+(** val asm_hasLess64 : z -> z -> bool **)
+
+let asm_hasLess64 x n0 =
+  negb
+    (Z.eqb
+      (and64 (and64 (sub64 x (mul64 asm_hasLessConstL64 n0)) (not64 x))
+        asm_hasLessConstR64) Z0)
+
+(** val asm_hasLess32 : z -> z -> bool **)
+
+let asm_hasLess32 x n0 =
+  negb
+    (Z.eqb
+      (and32 (and32 (sub32 x (mul32 asm_hasLessConstL32 n0)) (not32 x))
+        asm_hasLessConstR32) Z0)
+
+(** val asm_hasMore64 : z -> z -> bool **)
+
+let asm_hasMore64 x n0 =
+  negb
+    (Z.eqb
+      (and64
+        (or64
+          (add64 x
+            (mul64 asm_hasMoreConstL64
+              (sub64 (Zpos (XI (XI (XI (XI (XI (XI XH))))))) n0))) x)
+        asm_hasMoreConstR64) Z0)
+
+(** val asm_hasMore32 : z -> z -> bool **)
+
+let asm_hasMore32 x n0 =
+  negb
+    (Z.eqb
+      (and32
+        (or32
+          (add32 x
+            (mul32 asm_hasMoreConstL32
+              (sub32 (Zpos (XI (XI (XI (XI (XI (XI XH))))))) n0))) x)
+        asm_hasMoreConstR32) Z0)
+
+(** val asm_ValidByte : z -> bool **)
+
+let asm_ValidByte b =
+  Z.leb b (Zpos (XI (XI (XI (XI (XI (XI XH)))))))
+
+(** val asm_ValidRune : z -> bool **)
+
+let asm_ValidRune r =
+  Z.leb r (Zpos (XI (XI (XI (XI (XI (XI XH)))))))
+
+(** val asm_ValidPrintByte : z -> bool **)
+
+let asm_ValidPrintByte b =
+  (&&) (Z.leb (Zpos (XO (XO (XO (XO (XO XH)))))) b)
+    (Z.leb b (Zpos (XO (XI (XI (XI (XI (XI XH))))))))
+
+(** val asm_ValidPrintRune : z -> bool **)
+
+let asm_ValidPrintRune r =
+  (&&) (Z.leb (Zpos (XO (XO (XO (XO (XO XH)))))) r)
+    (Z.leb r (Zpos (XO (XI (XI (XI (XI (XI XH))))))))
+
+(** val asm_ValidString : nat -> bytes -> bool option **)
+
+let asm_ValidString fuel s =
+  let i = Z0 in
+  let n0 = w64 (len s) in
+  let k4_ = fun i0 ->
+    let k3_ = fun i1 ->
+      if Z.eqb i1 n0
+      then Some true
+      else let p = slice_from s i1 in
+           let k1_ = fun x -> Some
+             (Z.eqb
+               (and32 x (Zpos (XO (XO (XO (XO (XO (XO (XO (XI (XO (XO (XO (XO
+                 (XO (XO (XO (XI (XO (XO (XO (XO (XO (XO (XO (XI (XO (XO (XO
+                 (XO (XO (XO (XO XH))))))))))))))))))))))))))))))))) Z0)
+           in
+           let tag2_ = sub64 n0 i1 in
+           if Z.eqb tag2_ (Zpos (XI XH))
+           then let x =
+                  or32 (le16 p)
+                    (shl32 (at_ p (Zpos (XO XH))) (Zpos (XO (XO (XO (XO
+                      XH))))))
+                in
+                k1_ x
+           else if Z.eqb tag2_ (Zpos (XO XH))
+                then let x = le16 p in k1_ x
+                else if Z.eqb tag2_ (Zpos XH)
+                     then let x = at_ p Z0 in k1_ x
+                     else Some true
+    in
+    if Z.leb (add64 i0 (Zpos (XO (XO XH)))) n0
+    then if negb
+              (Z.eqb
+                (and32 (le32 (slice_from s i0)) (Zpos (XO (XO (XO (XO (XO (XO
+                  (XO (XI (XO (XO (XO (XO (XO (XO (XO (XI (XO (XO (XO (XO (XO
+                  (XO (XO (XI (XO (XO (XO (XO (XO (XO (XO
+                  XH))))))))))))))))))))))))))))))))) Z0)
+         then Some false
+         else let i1 = add64 i0 (Zpos (XO (XO XH))) in k3_ i1
+    else k3_ i0
+  in
+  let rec loop5_ f6_ i0 =
+    match f6_ with
+    | O -> None
+    | S f7_ ->
+      if Z.leb (add64 i0 (Zpos (XO (XO (XO XH))))) n0
+      then if negb
+                (Z.eqb
+                  (and64 (le64 (slice_from s i0)) (Zpos (XO (XO (XO (XO (XO
+                    (XO (XO (XI (XO (XO (XO (XO (XO (XO (XO (XI (XO (XO (XO
+                    (XO (XO (XO (XO (XI (XO (XO (XO (XO (XO (XO (XO (XI (XO
+                    (XO (XO (XO (XO (XO (XO (XI (XO (XO (XO (XO (XO (XO (XO
+                    (XI (XO (XO (XO (XO (XO (XO (XO (XI (XO (XO (XO (XO (XO
+                    (XO (XO
+                    XH)))))))))))))))))))))))))))))))))))))))))))))))))))))))))))))))))
+                  Z0)
+           then Some false
+           else let i1 = add64 i0 (Zpos (XO (XO (XO XH)))) in loop5_ f7_ i1
+      else k4_ i0
+  in loop5_ fuel i
+
+(** val asm_Valid : nat -> bytes -> bool option **)
+
+let asm_Valid fuel b =
+  obind (asm_ValidString fuel (Obj.magic id b)) (fun r1_ -> Some r1_)
+
+(** val asm_ValidPrintString : nat -> bytes -> bool option **)
+
+let asm_ValidPrintString fuel s =
+  let i = Z0 in
+  let n0 = w64 (len s) in
+  let k4_ = fun i0 ->
+    let k3_ = fun i1 ->
+      if Z.eqb i1 n0
+      then Some true
+      else let p = slice_from s i1 in
+           let k1_ = fun x -> Some
+             (negb
+               ((||) (asm_hasLess32 x (Zpos (XO (XO (XO (XO (XO XH)))))))
+                 (asm_hasMore32 x (Zpos (XO (XI (XI (XI (XI (XI XH))))))))))
+           in
+           let tag2_ = sub64 n0 i1 in
+           if Z.eqb tag2_ (Zpos (XI XH))
+           then let x =
+                  or32
+                    (or32 (Zpos (XO (XO (XO (XO (XO (XO (XO (XO (XO (XO (XO
+                      (XO (XO (XO (XO (XO (XO (XO (XO (XO (XO (XO (XO (XO (XO
+                      (XO (XO (XO (XO XH))))))))))))))))))))))))))))))
+                      (le16 p))
+                    (shl32 (at_ p (Zpos (XO XH))) (Zpos (XO (XO (XO (XO
+                      XH))))))
+                in
+                k1_ x
+           else if Z.eqb tag2_ (Zpos (XO XH))
+                then let x =
+                       or32 (Zpos (XO (XO (XO (XO (XO (XO (XO (XO (XO (XO (XO
+                         (XO (XO (XO (XO (XO (XO (XO (XO (XO (XO (XI (XO (XO
+                         (XO (XO (XO (XO (XO XH))))))))))))))))))))))))))))))
+                         (le16 p)
+                     in
+                     k1_ x
+                else if Z.eqb tag2_ (Zpos XH)
+                     then let x =
+                            or32 (Zpos (XO (XO (XO (XO (XO (XO (XO (XO (XO
+                              (XO (XO (XO (XO (XI (XO (XO (XO (XO (XO (XO (XO
+                              (XI (XO (XO (XO (XO (XO (XO (XO
+                              XH)))))))))))))))))))))))))))))) (at_ p Z0)
+                          in
+                          k1_ x
+                     else Some true
+    in
+    if Z.leb (add64 i0 (Zpos (XO (XO XH)))) n0
+    then if (||)
+              (asm_hasLess32 (le32 (slice_from s i0)) (Zpos (XO (XO (XO (XO
+                (XO XH)))))))
+              (asm_hasMore32 (le32 (slice_from s i0)) (Zpos (XO (XI (XI (XI
+                (XI (XI XH))))))))
+         then Some false
+         else let i1 = add64 i0 (Zpos (XO (XO XH))) in k3_ i1
+    else k3_ i0
+  in
+  let rec loop5_ f6_ i0 =
+    match f6_ with
+    | O -> None
+    | S f7_ ->
+      if Z.leb (add64 i0 (Zpos (XO (XO (XO XH))))) n0
+      then if (||)
+                (asm_hasLess64 (le64 (slice_from s i0)) (Zpos (XO (XO (XO (XO
+                  (XO XH)))))))
+                (asm_hasMore64 (le64 (slice_from s i0)) (Zpos (XO (XI (XI (XI
+                  (XI (XI XH))))))))
+           then Some false
+           else let i1 = add64 i0 (Zpos (XO (XO (XO XH)))) in loop5_ f7_ i1
+      else k4_ i0
+  in loop5_ fuel i
+
+(** val asm_ValidPrint : nat -> bytes -> bool option **)
+
+let asm_ValidPrint fuel b =
+  obind (asm_ValidPrintString fuel (Obj.magic id b)) (fun r1_ -> Some r1_)
+
+(** val asm_EqualFoldString : nat -> bytes -> bytes -> bool option **)
+
+let asm_EqualFoldString fuel a b =
+  if negb (Z.eqb (len a) (len b))
+  then Some false
+  else let cmp = Z0 in
+       let k10_ = fun a0 b0 cmp0 ->
+         let k1_ = fun cmp1 -> Some (Z.eqb cmp1 Z0) in
+         let tag2_ = len a0 in
+         let k3_ = fun cmp1 ->
+           let cmp2 =
+             or8 cmp1
+               (xor8 (nth (Z.to_nat (at_ a0 Z0)) asm_lowerCase Z0)
+                 (nth (Z.to_nat (at_ b0 Z0)) asm_lowerCase Z0))
+           in
+           k1_ cmp2
+         in
+         let k4_ = fun cmp1 ->
+           let cmp2 =
+             or8 cmp1
+               (xor8 (nth (Z.to_nat (at_ a0 (Zpos XH))) asm_lowerCase Z0)
+                 (nth (Z.to_nat (at_ b0 (Zpos XH))) asm_lowerCase Z0))
+           in
+           k3_ cmp2
+         in
+         let k5_ = fun cmp1 ->
+           let cmp2 =
+             or8 cmp1
+               (xor8
+                 (nth (Z.to_nat (at_ a0 (Zpos (XO XH)))) asm_lowerCase Z0)
+                 (nth (Z.to_nat (at_ b0 (Zpos (XO XH)))) asm_lowerCase Z0))
+           in
+           k4_ cmp2
+         in
+         let k6_ = fun cmp1 ->
+           let cmp2 =
+             or8 cmp1
+               (xor8
+                 (nth (Z.to_nat (at_ a0 (Zpos (XI XH)))) asm_lowerCase Z0)
+                 (nth (Z.to_nat (at_ b0 (Zpos (XI XH)))) asm_lowerCase Z0))
+           in
+           k5_ cmp2
+         in
+         let k7_ = fun cmp1 ->
+           let cmp2 =
+             or8 cmp1
+               (xor8
+                 (nth (Z.to_nat (at_ a0 (Zpos (XO (XO XH))))) asm_lowerCase
+                   Z0)
+                 (nth (Z.to_nat (at_ b0 (Zpos (XO (XO XH))))) asm_lowerCase
+                   Z0))
+           in
+           k6_ cmp2
+         in
+         let k8_ = fun cmp1 ->
+           let cmp2 =
+             or8 cmp1
+               (xor8
+                 (nth (Z.to_nat (at_ a0 (Zpos (XI (XO XH))))) asm_lowerCase
+                   Z0)
+                 (nth (Z.to_nat (at_ b0 (Zpos (XI (XO XH))))) asm_lowerCase
+                   Z0))
+           in
+           k7_ cmp2
+         in
+         let k9_ = fun cmp1 ->
+           let cmp2 =
+             or8 cmp1
+               (xor8
+                 (nth (Z.to_nat (at_ a0 (Zpos (XO (XI XH))))) asm_lowerCase
+                   Z0)
+                 (nth (Z.to_nat (at_ b0 (Zpos (XO (XI XH))))) asm_lowerCase
+                   Z0))
+           in
+           k8_ cmp2
+         in
+         if Z.eqb tag2_ (Zpos (XI (XI XH)))
+         then k9_ cmp0
+         else if Z.eqb tag2_ (Zpos (XO (XI XH)))
+              then k8_ cmp0
+              else if Z.eqb tag2_ (Zpos (XI (XO XH)))
+                   then k7_ cmp0
+                   else if Z.eqb tag2_ (Zpos (XO (XO XH)))
+                        then k6_ cmp0
+                        else if Z.eqb tag2_ (Zpos (XI XH))
+                             then k5_ cmp0
+                             else if Z.eqb tag2_ (Zpos (XO XH))
+                                  then k4_ cmp0
+                                  else if Z.eqb tag2_ (Zpos XH)
+                                       then k3_ cmp0
+                                       else k1_ cmp0
+       in
+       let rec loop11_ f12_ a0 b0 cmp0 =
+         match f12_ with
+         | O -> None
+         | S f13_ ->
+           if Z.geb (len a0) (Zpos (XO (XO (XO XH))))
+           then let cmp1 =
+                  or8 cmp0
+                    (xor8 (nth (Z.to_nat (at_ a0 Z0)) asm_lowerCase Z0)
+                      (nth (Z.to_nat (at_ b0 Z0)) asm_lowerCase Z0))
+                in
+                let cmp2 =
+                  or8 cmp1
+                    (xor8
+                      (nth (Z.to_nat (at_ a0 (Zpos XH))) asm_lowerCase Z0)
+                      (nth (Z.to_nat (at_ b0 (Zpos XH))) asm_lowerCase Z0))
+                in
+                let cmp3 =
+                  or8 cmp2
+                    (xor8
+                      (nth (Z.to_nat (at_ a0 (Zpos (XO XH)))) asm_lowerCase
+                        Z0)
+                      (nth (Z.to_nat (at_ b0 (Zpos (XO XH)))) asm_lowerCase
+                        Z0))
+                in
+                let cmp4 =
+                  or8 cmp3
+                    (xor8
+                      (nth (Z.to_nat (at_ a0 (Zpos (XI XH)))) asm_lowerCase
+                        Z0)
+                      (nth (Z.to_nat (at_ b0 (Zpos (XI XH)))) asm_lowerCase
+                        Z0))
+                in
+                let cmp5 =
+                  or8 cmp4
+                    (xor8
+                      (nth (Z.to_nat (at_ a0 (Zpos (XO (XO XH)))))
+                        asm_lowerCase Z0)
+                      (nth (Z.to_nat (at_ b0 (Zpos (XO (XO XH)))))
+                        asm_lowerCase Z0))
+                in
+                let cmp6 =
+                  or8 cmp5
+                    (xor8
+                      (nth (Z.to_nat (at_ a0 (Zpos (XI (XO XH)))))
+                        asm_lowerCase Z0)
+                      (nth (Z.to_nat (at_ b0 (Zpos (XI (XO XH)))))
+                        asm_lowerCase Z0))
+                in
+                let cmp7 =
+                  or8 cmp6
+                    (xor8
+                      (nth (Z.to_nat (at_ a0 (Zpos (XO (XI XH)))))
+                        asm_lowerCase Z0)
+                      (nth (Z.to_nat (at_ b0 (Zpos (XO (XI XH)))))
+                        asm_lowerCase Z0))
+                in
+                let cmp8 =
+                  or8 cmp7
+                    (xor8
+                      (nth (Z.to_nat (at_ a0 (Zpos (XI (XI XH)))))
+                        asm_lowerCase Z0)
+                      (nth (Z.to_nat (at_ b0 (Zpos (XI (XI XH)))))
+                        asm_lowerCase Z0))
+                in
+                if negb (Z.eqb cmp8 Z0)
+                then Some false
+                else let a1 = slice_from a0 (Zpos (XO (XO (XO XH)))) in
+                     let b1 = slice_from b0 (Zpos (XO (XO (XO XH)))) in
+                     loop11_ f13_ a1 b1 cmp8
+           else k10_ a0 b0 cmp0
+       in loop11_ fuel a b cmp
+
+(** val asm_EqualFold : nat -> bytes -> bytes -> bool option **)
+
+let asm_EqualFold fuel a b =
+  obind (asm_EqualFoldString fuel (Obj.magic id a) (Obj.magic id b))
+    (fun r1_ -> Some r1_)
+
+(** val asm_HasPrefixFold : nat -> bytes -> bytes -> bool option **)
+
+let asm_HasPrefixFold fuel s prefix =
+  if Z.geb (len s) (len prefix)
+  then obind (asm_EqualFold fuel (slice_to s (len prefix)) prefix)
+         (fun r1_ -> Some r1_)
+  else Some false
+
+(** val asm_HasSuffixFold : nat -> bytes -> bytes -> bool option **)
+
+let asm_HasSuffixFold fuel s suffix =
+  if Z.geb (len s) (len suffix)
+  then obind
+         (asm_EqualFold fuel (slice_from s (subi64 (len s) (len suffix)))
+           suffix) (fun r1_ -> Some r1_)
+  else Some false
+
+(** val asm_HasPrefixFoldString : nat -> bytes -> bytes -> bool option **)
+
+let asm_HasPrefixFoldString fuel s prefix =
+  if Z.geb (len s) (len prefix)
+  then obind (asm_EqualFoldString fuel (slice_to s (len prefix)) prefix)
+         (fun r1_ -> Some r1_)
+  else Some false
+
+(** val asm_HasSuffixFoldString : nat -> bytes -> bytes -> bool option **)
+
+let asm_HasSuffixFoldString fuel s suffix =
+  if Z.geb (len s) (len suffix)
+  then obind
+         (asm_EqualFoldString fuel
+           (slice_from s (subi64 (len s) (len suffix))) suffix) (fun r1_ ->
+         Some r1_)
+  else Some false
+
+(** val run_fuel : bool option -> bool **)
+
+let run_fuel = function
+| Some r -> r
+| None -> false
+
+(** val asmt_Valid : bytes -> bool **)
+
+let asmt_Valid b =
+  run_fuel (asm_Valid (S (length b)) b)
+
+(** val asmt_ValidString : bytes -> bool **)
+
+let asmt_ValidString s =
+  run_fuel (asm_ValidString (S (length s)) s)
+
+(** val asmt_ValidPrint : bytes -> bool **)
+
+let asmt_ValidPrint b =
+  run_fuel (asm_ValidPrint (S (length b)) b)
+
+(** val asmt_ValidPrintString : bytes -> bool **)
+
+let asmt_ValidPrintString s =
+  run_fuel (asm_ValidPrintString (S (length s)) s)
+
+(** val asmt_EqualFold : bytes -> bytes -> bool **)
+
+let asmt_EqualFold a b =
+  run_fuel (asm_EqualFold (S (length a)) a b)
+
+(** val asmt_EqualFoldString : bytes -> bytes -> bool **)
+
+let asmt_EqualFoldString a b =
+  run_fuel (asm_EqualFoldString (S (length a)) a b)
+
+(** val asmt_HasPrefixFold : bytes -> bytes -> bool **)
+
+let asmt_HasPrefixFold s p =
+  run_fuel (asm_HasPrefixFold (S (length p)) s p)
+
+(** val asmt_HasPrefixFoldString : bytes -> bytes -> bool **)
+
+let asmt_HasPrefixFoldString s p =
+  run_fuel (asm_HasPrefixFoldString (S (length p)) s p)
+
+(** val asmt_HasSuffixFold : bytes -> bytes -> bool **)
+
+let asmt_HasSuffixFold s p =
+  run_fuel (asm_HasSuffixFold (S (length p)) s p)
+
+(** val asmt_HasSuffixFoldString : bytes -> bytes -> bool **)
+
+let asmt_HasSuffixFoldString s p =
+  run_fuel (asm_HasSuffixFoldString (S (length p)) s p)
+
+(** val ascii_Valid : bytes -> bool **)
+
+let ascii_Valid =
+  asmt_Valid
+
+(** val ascii_ValidByte : z -> bool **)
+
+let ascii_ValidByte =
+  asm_ValidByte
+
+(** val ascii_ValidRune : z -> bool **)
+
+let ascii_ValidRune =
+  asm_ValidRune
+
+(** val ascii_ValidString : bytes -> bool **)
+
+let ascii_ValidString =
+  asmt_ValidString
+
+(** val ascii_ValidPrint : bytes -> bool **)
+
+let ascii_ValidPrint =
+  asmt_ValidPrint
+
+(** val ascii_ValidPrintByte : z -> bool **)
+
+let ascii_ValidPrintByte =
+  asm_ValidPrintByte
+
+(** val ascii_ValidPrintRune : z -> bool **)
+
+let ascii_ValidPrintRune =
+  asm_ValidPrintRune
+
+(** val ascii_ValidPrintString : bytes -> bool **)
+
+let ascii_ValidPrintString =
+  asmt_ValidPrintString
+
+(** val ascii_EqualFold : bytes -> bytes -> bool **)
+
+let ascii_EqualFold =
+  asmt_EqualFold
+
+(** val ascii_HasPrefixFold : bytes -> bytes -> bool **)
+
+let ascii_HasPrefixFold =
+  asmt_HasPrefixFold
+
+(** val ascii_HasSuffixFold : bytes -> bytes -> bool **)
+
+let ascii_HasSuffixFold =
+  asmt_HasSuffixFold
+
+(** val ascii_EqualFoldString : bytes -> bytes -> bool **)
+
+let ascii_EqualFoldString =
+  asmt_EqualFoldString
+
+(** val ascii_HasPrefixFoldString : bytes -> bytes -> bool **)
+
+let ascii_HasPrefixFoldString =
+  asmt_HasPrefixFoldString
+
+(** val ascii_HasSuffixFoldString : bytes -> bytes -> bool **)
+
+let ascii_HasSuffixFoldString =
+  asmt_HasSuffixFoldString
+
+(** val is_ascii : z -> bool **)
+
+let is_ascii b =
+  Z.ltb b (Zpos (XO (XO (XO (XO (XO (XO (XO XH))))))))
+
+(** val is_print : z -> bool **)
+
+let is_print b =
+  (&&) (Z.leb (Zpos (XO (XO (XO (XO (XO XH)))))) b)
+    (Z.leb b (Zpos (XO (XI (XI (XI (XI (XI XH))))))))
+
+(** val lower : z -> z **)
+
+let lower b =
+  if (&&) (Z.leb (Zpos (XI (XO (XO (XO (XO (XO XH))))))) b)
+       (Z.leb b (Zpos (XO (XI (XO (XI (XI (XO XH))))))))
+  then Z.add b (Zpos (XO (XO (XO (XO (XO XH))))))
+  else b
+
+(** val forallb2 : (z -> z -> bool) -> bytes -> bytes -> bool **)
+
+let rec forallb2 f a b =
+  match a with
+  | [] -> (match b with
+           | [] -> true
+           | _ :: _ -> false)
+  | x :: a' ->
+    (match b with
+     | [] -> false
+     | y :: b' -> (&&) (f x y) (forallb2 f a' b'))
+
+(** val fold_eq : bytes -> bytes -> bool **)
+
+let fold_eq a b =
+  forallb2 (fun x y -> Z.eqb (lower x) (lower y)) a b
+
+(** val has_prefix_fold : bytes -> bytes -> bool **)
+
+let has_prefix_fold s p =
+  (&&) (Nat.leb (length p) (length s)) (fold_eq (firstn (length p) s) p)
+
+(** val has_suffix_fold : bytes -> bytes -> bool **)
+
+let has_suffix_fold s p =
+  (&&) (Nat.leb (length p) (length s))
+    (fold_eq (skipn (sub (length s) (length p)) s) p)
